@@ -25,7 +25,7 @@ package broadcast
 //@   props C03 C13
 //@   lock mtx
 //@   guarded ch
-//@   inv B1: this.ch != nil ==> !closed(this.ch) && issuedBy(this.ch) == this
+//@   inv B1: this.ch != nil ==> !closed(this.ch) && issuedBy(this.ch) == this && madein(this.ch, "(*Broadcast).getWaitChLocked")
 //@   inv B2: forall w: ref {issuedBy(w)} :: issuedBy(w) == this && allocated(w) && w != nil && w != this.ch ==> closed(w)
 //@   stable S1: this.ch != nil ==> !closed(this.ch)
 //@   stable S2: forall w: ref {issuedBy(w)} :: issuedBy(w) == this && allocated(w) && w != nil && w != this.ch ==> closed(w)
@@ -36,7 +36,7 @@ package broadcast
 //@   modifies this.ch, alloc, ghost:issuedBy, ghost:gettime
 //@   ghost exit: issuedBy(result) := c
 //@   ghost exit: gettime(result) := now()
-//@   ensures current: result != nil && result == c.ch && !closed(result) && issuedBy(result) == c && gettime(result) == now()
+//@   ensures current: result != nil && result == c.ch && !closed(result) && issuedBy(result) == c && gettime(result) == now() && madein(result, "(*Broadcast).getWaitChLocked")
 //@   ensures others: forall w: ref :: w != result ==> issuedBy(w) == old(issuedBy(w)) && gettime(w) == old(gettime(w))
 //@   ensures fresh: old(c.ch) == nil ==> !old(allocated(result))
 //@   ensures onlynew: forall w: ref :: allocated(w) ==> old(allocated(w)) || w == result
